@@ -110,10 +110,14 @@ type Object struct {
 	closed bool
 	buf    []Value
 	bufcap int
+	// timer channel: no scheduler and no real time, so a timer fires only when a blocking
+	// select has nothing else ready (the wait "times out")
+	isTimer     bool
+	timerActive bool
 }
 
 func (o *Object) clone(epoch int) *Object {
-	n := &Object{kind: o.kind, epoch: epoch, label: o.label, closed: o.closed, bufcap: o.bufcap}
+	n := &Object{kind: o.kind, epoch: epoch, label: o.label, closed: o.closed, bufcap: o.bufcap, isTimer: o.isTimer, timerActive: o.timerActive}
 	if o.slots != nil {
 		n.slots = make([]Value, len(o.slots))
 		copy(n.slots, o.slots)
